@@ -50,10 +50,15 @@ def cases(draw, tier="quick"):
         if rec[0] == "mix":
             rec = rec + ([1, 0, 2],)
         fixed.append((name, rec))
+    # directories that the input never declares (pack file, tar): created by the packer itself, so their attributes come from the
+    # defaults and from nothing in the environment
+    undeclared = kind in ("gen_file", "t2s") and draw(st.sampled_from([False, True]))
+    if undeclared:
+        case["undeclared_parents"] = True
     if kind in ("gen_dir", "gen_file"):
         nodes = [dict(path=b"d", type="dir", mode=0o755, uid=0, gid=0, mtime=5, xattrs={})]
         for i, (name, rec) in enumerate(fixed):
-            p = (b"d/" if i % 3 == 0 else b"") + name.encode()
+            p = (b"d/" if i % 3 == 0 else (b"u/v/" if undeclared and i % 3 == 1 else b"")) + name.encode()
             nodes.append(dict(path=p, type="file", mode=0o644, uid=i % 3, gid=0, mtime=7, xattrs={}, content=rec))
         case.update(mode="dir" if kind == "gen_dir" else "file", nodes=nodes)
         if kind == "gen_dir":
@@ -66,7 +71,7 @@ def cases(draw, tier="quick"):
     else:
         ents = []
         for i, (name, rec) in enumerate(fixed):
-            ents.append(dict(name=name.encode(), type="file", mode=0o644, uid=1, gid=2, mtime=3, xattrs={}, data=treemodel.content_bytes(rec, B),
+            ents.append(dict(name=(b"u/v/" if undeclared and i % 3 == 1 else b"") + name.encode(), type="file", mode=0o644, uid=1, gid=2, mtime=3, xattrs={}, data=treemodel.content_bytes(rec, B),
                              enc=dict(fmt="ustar", num="octal", ostyle=0)))
         case["archive"] = dict(entries=ents, end_marker=True, global_pax=False, trailing_pad=0)
         case["codec"] = None
@@ -185,7 +190,7 @@ def check_case(case, opts):
                 raise Violation("tsan build image differs from serial reference", None, sig="image-differs")
         maxj = max((j or 16) for j, *_ in case["variants"])
         nontrivial = nblocks >= 4 and nfrag >= 1 and len(seen) >= 3
-        cl = ["kind_" + case["kind"], "frag_blocks_%d" % min(nfrag, 3)]
+        cl = ["kind_" + case["kind"], "frag_blocks_%d" % min(nfrag, 3)] + (["undeclared_parents"] if case.get("undeclared_parents") else [])
         if any(v[2] for v in case["variants"]):
             cl.append("chaos")
         return CaseInfo(nontrivial, cl)
